@@ -29,8 +29,11 @@ Origins == IF Quick THEN {"", "http://a.com", "HTTP://A.COM", "http://a.com.evil
 Acrms == IF Quick THEN {"", "GET", "PUT"} ELSE {"", "GET", "PUT", "DELETE"}
 Acrhs == IF Quick THEN {"", "X-A", "x-a, X-B"} ELSE {"", "X-A", "x-a, X-B", "X-C", "X-A,X-C", " x-b "}
 Urls == {"/u1", "/u2"}
-Reqs == {[m |-> m, origin |-> o, acrm |-> a, acrh |-> h, url |-> u] :
+\* a second Access-Control-Request-Headers field line on some preflights (an allowed first line, anything after it)
+Reqs == {[m |-> m, origin |-> o, acrm |-> a, acrh |-> h, acrh2 |-> "", url |-> u] :
            m \in {"GET", "OPTIONS"}, o \in Origins, a \in Acrms, h \in Acrhs, u \in Urls}
+        \cup {[m |-> "OPTIONS", origin |-> o, acrm |-> "GET", acrh |-> "X-A", acrh2 |-> h2, url |-> "/u1"] :
+                o \in Origins, h2 \in {"X-Secret", "x-a, X-B"}}
 
 \* the model's container: /u1 serves GET, /u2 serves GET and PUT
 RoutableSeq(url) == IF url = "/u1" THEN <<"GET">> ELSE <<"GET", "PUT">>
@@ -49,7 +52,7 @@ ClausesHold(req) ==
       routable == SeqToSet(RoutableSeq(req.url))
   IN /\ C08NoGrant(cfg, req, r, "twin") /\ C08Echo(cfg, req, r) /\ C08Cred(cfg, req, r)
      /\ C09Alone(cfg, req, r) /\ C09Refuse(cfg, req, r, routable) /\ C09Grant(cfg, req, r, routable)
-     /\ C09Actual(cfg, req, r, "twin")
+     /\ C09Actual(cfg, req, r, "twin") /\ C09Headers(cfg, r)
 Refines == \A req \in Reqs : ClausesHold(req)
 \* the two readings of "allowed origin" coincide on every pool element
 OriginReadingsAgree == \A req \in Reqs : ImplOriginAllowed(cfg, req.origin) = OriginAllowed(cfg, req.origin)
